@@ -64,7 +64,7 @@ pub fn run(ctx: &Ctx) -> CheckResult {
 
     // deviation-bounded families for larger periods (P_big up to 512)
     if !res.out.failed() {
-        let periods: Vec<usize> = if th { P_BIG.iter().copied().filter(|p| *p <= 512).collect() } else { vec![6, 7, 8, 16, 31, 32, 33, 64, 100] };
+        let periods: Vec<usize> = if th { P_BIG.iter().copied().filter(|p| *p <= 512).collect() } else { vec![6, 7, 8, 9, 14, 16, 20, 31, 32, 33, 64, 100] };
         let mut fams = vec![];
         for &n in &periods {
             let len = 3 * n + 5;
